@@ -18,6 +18,7 @@
    run by tools/c03.py: replication worlds (writer growth, clears, full and partial upgrades, block/hash/seek requests built
    from the replica's own missing-node query, replica reopen) on crate and model, with the oracle that every honest proof is
    accepted and every held block is byte-identical to the writer's. *)
+From HC Require Import ClearRefine Unified1 ProofContent.
 From HC Require Import Replicate2E.
 From HC Require Import Replicate2 Replicate2Z Replicate2D.
 From HC Require Import Core SoundCoreLib SoundCore ReplicaDisk1 ReplicaDisk2 ReplicaDisk3 ReplicaDisk5.
@@ -1123,6 +1124,95 @@ Theorem C03_block_stored_at_prefix_sum_offset :
          cs_roots cs = t_roots rt -> byte_offset_in_changeset rt rtf i cs = Ok (TreeRef.prefix_size bs i).
 Proof. exact block_offset_in_changeset. Qed.
 
+Theorem C03_unheld_block_yields_no_proof :
+  forall (cr : crypto) (kp : keypair) (sk : bytes),
+         OplogFacts.crc_ok cr ->
+         (forall x : bytes, Datatypes.length (cr_hash cr x) = 32%nat) ->
+         (forall x : bytes, all_zero (cr_hash cr x) = false) ->
+         (forall x : bytes, bytes_ok (cr_hash cr x) = true) ->
+         (forall k m : bytes, Datatypes.length (cr_sign cr k m) = 64%nat) ->
+         (forall k m : bytes, bytes_ok (cr_sign cr k m) = true) ->
+         OplogFacts.keypair_ok kp = true ->
+         kp_secret kp = Some sk ->
+         forall (c : core) (d : disk) (bs : list bytes) (cl : N -> bool) (j : list sop) 
+           (ev : list event) (rb : req_block) (hash : option req_block) (seek : option req_seek)
+           (upgrade : option req_upgrade) (c' : core) (w' : world) (r : res (option proof)),
+         wreach cr kp c d bs cl ->
+         held (N.of_nat (Datatypes.length bs)) cl (rb_index rb) = false ->
+         core_create_proof (Some rb) hash seek upgrade c {| w_disk := d; w_journal := j; w_events := ev |} =
+         (c', w', r) ->
+         c' = c /\
+         match r with
+         | Ok (Some _) => False
+         | Ok None => w' = {| w_disk := d; w_journal := j; w_events := EvGet (rb_index rb) :: ev |}
+         | Err _ =>
+             w' = {| w_disk := d; w_journal := j; w_events := ev |} /\
+             r =
+             match create_valueless_proof (c_tree c) (d_tree d) (Some rb) hash seek upgrade with
+             | Ok _ => r
+             | Err e0 => Err e0
+             | Panic s => Panic s
+             | OutOfFuel => OutOfFuel
+             end
+         | _ =>
+             w' = {| w_disk := d; w_journal := j; w_events := ev |} /\
+             r =
+             match create_valueless_proof (c_tree c) (d_tree d) (Some rb) hash seek upgrade with
+             | Ok _ => r
+             | Err e => Err e
+             | Panic s => Panic s
+             | OutOfFuel => OutOfFuel
+             end
+         end.
+Proof. exact C03_unheld_block_yields_no_proof. Qed.
+
+Theorem C03_create_proof_determined :
+  forall (cr : crypto) (c : core) (d : disk) (bs : list bytes) (cl : N -> bool) 
+           (j : list sop) (ev : list event) (block hash : option req_block) (seek : option req_seek)
+           (upgrade : option req_upgrade),
+         FInv cr c d bs cl ->
+         core_create_proof block hash seek upgrade c {| w_disk := d; w_journal := j; w_events := ev |} =
+         match create_valueless_proof (c_tree c) (d_tree d) block hash seek upgrade with
+         | Ok vp =>
+             match vp_block vp with
+             | Some b =>
+                 if held (N.of_nat (Datatypes.length bs)) cl (dh_index b)
+                 then
+                  (c, {| w_disk := d; w_journal := j; w_events := ev |},
+                   Ok
+                     (Some
+                        {|
+                          p_fork := vp_fork vp;
+                          p_block :=
+                            Some
+                              {|
+                                db_index := dh_index b;
+                                db_value := nth (N.to_nat (dh_index b)) bs [];
+                                db_nodes := dh_nodes b
+                              |};
+                          p_hash := vp_hash vp;
+                          p_seek := vp_seek vp;
+                          p_upgrade := vp_upgrade vp
+                        |}))
+                 else (c, {| w_disk := d; w_journal := j; w_events := EvGet (dh_index b) :: ev |}, Ok None)
+             | None =>
+                 (c, {| w_disk := d; w_journal := j; w_events := ev |},
+                  Ok
+                    (Some
+                       {|
+                         p_fork := vp_fork vp;
+                         p_block := None;
+                         p_hash := vp_hash vp;
+                         p_seek := vp_seek vp;
+                         p_upgrade := vp_upgrade vp
+                       |}))
+             end
+         | Err e => (c, {| w_disk := d; w_journal := j; w_events := ev |}, Err e)
+         | Panic s => (c, {| w_disk := d; w_journal := j; w_events := ev |}, Panic s)
+         | OutOfFuel => (c, {| w_disk := d; w_journal := j; w_events := ev |}, OutOfFuel)
+         end.
+Proof. exact create_proof_run. Qed.
+
 Print Assumptions C03_block_request_served.
 Print Assumptions C03_block_only_end_to_end.
 Print Assumptions C03_block_only_accepted.
@@ -1165,3 +1255,5 @@ Print Assumptions C03_seek_with_upgrade_accepted.
 Print Assumptions C03_honest_block_proof_applied_end_to_end.
 Print Assumptions C03_honest_upgrade_proof_applied_end_to_end.
 Print Assumptions C03_block_stored_at_prefix_sum_offset.
+Print Assumptions C03_unheld_block_yields_no_proof.
+Print Assumptions C03_create_proof_determined.
